@@ -328,6 +328,8 @@ class Ref(object):
             cl = prog["clauses"][ci]
             if len(cl["heads"]) > 1 and cl["body"]:
                 tags.add("ad_with_body")
+            if len(cl["heads"]) > 1:
+                tags.add("ad")
         for cl in prog["clauses"]:
             hp = set(h[1][0] for h in cl["heads"])
             for pos, at in cl["body"]:
